@@ -1,7 +1,15 @@
-"""Property id -> check function."""
-import tq
+"""Property id -> check function. Every module checks/*.py may define CHECKS = {pid: fn} and
+MANIFEST = {pid: dict(text=..., note=..., technique=..., design=..., category=...)}."""
+import glob
+import importlib
+import os
 
-CHECKS = {
-    "C05": tq.check_c05,
-    "C17": tq.check_c17,
-}
+CHECKS = {}
+MANIFEST = {}
+for _f in sorted(glob.glob(os.path.join(os.path.dirname(os.path.abspath(__file__)), "*.py"))):
+    _n = os.path.basename(_f)[:-3]
+    if _n in ("registry",) or _n.startswith("_"):
+        continue
+    _m = importlib.import_module(_n)
+    CHECKS.update(getattr(_m, "CHECKS", {}))
+    MANIFEST.update(getattr(_m, "MANIFEST", {}))
